@@ -542,13 +542,15 @@ Definition agg_input (q : select_stmt) (d : db) : option (list field * list row)
 
 (* the shape sql.Parser guarantees for a SELECT: the select list is not empty, `*` only as
    the whole select list, LIMIT and OFFSET are not negative *)
-Definition parser_shape (q : select_stmt) : bool :=
-  match sel_list q with
+Definition star_alone (sl : list derivedcol) : bool :=
+  match sl with
   | [] => false
   | [_] => true
   | l => forallb (fun d => match dc_prim d with SPStar => false | _ => true end) l
-  end
-  && (0 <=? sel_limit q)%Z && (0 <=? sel_offset q)%Z.
+  end.
+
+Definition parser_shape (q : select_stmt) : bool :=
+  star_alone (sel_list q) && (0 <=? sel_limit q)%Z && (0 <=? sel_offset q)%Z.
 
 Fixpoint compatb (a b : row) : bool :=
   match a, b with
